@@ -1068,6 +1068,477 @@ def f(a, b):
     return d, e, g
 ''')
 
+# ---- round 8: control-flow normal forms (break/else -> exit, search loops, guarded while, conditional comparisons, lazy iterators) ----
+corpus('''
+def f(l, n):
+    b = 0
+    for i in range(len(l)):
+        b = b * 2 + l[i]
+        if b % 7 == n % 7:
+            break
+    else:
+        raise ValueError
+    return (b, i)
+''')
+corpus('''
+def f(l, n):
+    k = 0
+    while 1:
+        k += 1
+        if k == n % 5 + 1:
+            return k * 100
+        n = n // 2 + len(l)
+        if n % 3 == 0:
+            break
+    h = n + k
+    h = h * 2
+    return h
+''')
+corpus('''
+def f(l, l2):
+    if len(l) == len(l2):
+        for (x, y) in zip(l, l2):
+            if x - y:
+                return False
+        return True
+    return sum(l) == sum(l2)
+''')
+corpus('''
+def f(l, n):
+    for x in l:
+        if x > n:
+            return True
+    return False
+''')
+corpus('''
+def f(l, n):
+    z = []
+    i = 0
+    while i < 6 and len(z) <= n % 4:
+        z = z + [i * 2 + len(l)]
+        i += 1
+    return z
+''')
+corpus('''
+def f(l, n):
+    m = len(l) * 8
+    b = None if n % 3 == 0 else n % 50
+    if b is None:
+        b = m
+    if b > m:
+        raise ValueError
+    if n % 2 and b % 16 > 0:
+        raise KeyError
+    return b
+''')
+corpus('''
+def f(o, n):
+    if n > 256:
+        o.c = 1024
+        o.d = 64
+    else:
+        o.c = 512
+        o.d = 32
+    return o.c + o.d, o.c, o.d
+''')
+corpus('''
+def f(l, n):
+    g = map(lambda x: x + n, l)
+    l.append(n)
+    r = list(g)
+    h = (x * 2 for x in l)
+    l.append(1)
+    return r, sum(h), l
+''')
+corpus('''
+def f(l, n):
+    if n % 2:
+        l = map(lambda x: x ^ 1, l)
+    l = list(l)
+    return l[:2], l[2:], len(l)
+''')
+corpus('''
+def f(l, n):
+    q, r = divmod(len(l), 3)
+    if len(l) == 0 or r > 0:
+        q += 1
+    out = []
+    for b in range(q - 1):
+        out.append(b + n)
+    t = 1 if n % 2 else 0
+    u = 4 if n == 4 else (1 if n == 3 else (8 * n - 28 if n > 4 else 0))
+    return out, q, t + 1, u // 3
+''')
+corpus('''
+def f(a, b, **kargs):
+    x = kargs.get('x', a)
+    y = kargs.get('y', b)
+    if x != y + 1:
+        if 'x' in kargs and 'y' in kargs:
+            a = x - y
+        if 'y' in kargs and 'z' in kargs:
+            b = x + y
+    return a, b, x, y
+''')
+
+corpus('''
+def f(l, n):
+    out = []
+    for x in map(lambda y: y + n, l):
+        if len(l) < 6:
+            l.append(x)
+        out.append(x)
+    for x in l:
+        if len(l) < 9:
+            l.append(x + 1)
+    return out, l
+''')
+
+# ---- hand-written rewrites of corpus entries in the shapes the control-flow normal forms absorb: some keep the behaviour, some do
+# not (the mutation operators do not produce these shapes).  Each is treated like a mutant: accepted => must behave the same.
+VARIANTS = []
+
+
+def variant(name, src):
+    VARIANTS.append((name, src.strip('\n') + '\n'))
+
+
+variant('p98', '''
+def f(l, n):
+    b = 0
+    for i in range(len(l)):
+        b = b * 2 + l[i]
+        if b % 7 == n % 7:
+            return (b, i)
+    raise ValueError
+''')
+variant('p98', '''
+def f(l, n):
+    b = 0
+    for i in range(len(l)):
+        b = b * 2 + l[i]
+        if b % 7 == n % 7:
+            break
+    return (b, i)
+''')
+variant('p98', '''
+def f(l, n):
+    b = 0
+    for i in range(len(l)):
+        if b % 7 == n % 7:
+            break
+        b = b * 2 + l[i]
+    else:
+        raise ValueError
+    return (b, i)
+''')
+variant('p99', '''
+def f(l, n):
+    k = 0
+    while 1:
+        k += 1
+        if k == n % 5 + 1:
+            return k * 100
+        n = n // 2 + len(l)
+        if n % 3 == 0:
+            h = n + k
+            h = h * 2
+            return h
+''')
+variant('p99', '''
+def f(l, n):
+    k = 0
+    while 1:
+        k += 1
+        if k == n % 5 + 1:
+            return k * 100
+        n = n // 2 + len(l)
+        if n % 3 == 0:
+            h = n + k
+            return h
+''')
+variant('p99', '''
+def f(l, n):
+    k = 0
+    while 1:
+        k += 1
+        if k == n % 5 + 1:
+            break
+        n = n // 2 + len(l)
+        if n % 3 == 0:
+            break
+    h = n + k
+    h = h * 2
+    return h
+''')
+variant('p100', '''
+def f(l, l2):
+    if len(l) == len(l2):
+        return not any(x - y for (x, y) in zip(l, l2))
+    return sum(l) == sum(l2)
+''')
+variant('p100', '''
+def f(l, l2):
+    if len(l) == len(l2):
+        return any(x - y for (x, y) in zip(l, l2))
+    return sum(l) == sum(l2)
+''')
+variant('p100', '''
+def f(l, l2):
+    if len(l) == len(l2):
+        return not all(x - y for (x, y) in zip(l, l2))
+    return sum(l) == sum(l2)
+''')
+variant('p101', '''
+def f(l, n):
+    return any(x > n for x in l)
+''')
+variant('p101', '''
+def f(l, n):
+    return all(x > n for x in l)
+''')
+variant('p101', '''
+def f(l, n):
+    for x in l:
+        if x > n:
+            return True
+        return False
+''')
+variant('p102', '''
+def f(l, n):
+    z = []
+    for i in range(6):
+        if len(z) > n % 4:
+            break
+        z = z + [i * 2 + len(l)]
+    return z
+''')
+variant('p102', '''
+def f(l, n):
+    z = []
+    for i in range(6):
+        if len(z) >= n % 4:
+            break
+        z = z + [i * 2 + len(l)]
+    return z
+''')
+variant('p102', '''
+def f(l, n):
+    z = []
+    for i in range(6):
+        z = z + [i * 2 + len(l)]
+        if len(z) > n % 4:
+            break
+    return z
+''')
+variant('p103', '''
+def f(l, n):
+    m = len(l) * 8
+    b = None if n % 3 == 0 else n % 50
+    if b is None:
+        b = m
+    elif b > m:
+        raise ValueError
+    if n % 2 and b % 16 > 0:
+        raise KeyError
+    return b
+''')
+variant('p103', '''
+def f(l, n):
+    m = len(l) * 8
+    b = None if n % 3 == 0 else n % 50
+    if b is None:
+        b = m
+    elif b >= m:
+        raise ValueError
+    if n % 2 and b % 16 > 0:
+        raise KeyError
+    return b
+''')
+variant('p103', '''
+def f(l, n):
+    m = len(l) * 8
+    b = None if n % 3 == 0 else n % 50
+    if b is None:
+        b = m
+        if b > m:
+            raise ValueError
+    if n % 2 and b % 16 > 0:
+        raise KeyError
+    return b
+''')
+variant('p104', '''
+def f(o, n):
+    o.c = 1024 if n > 256 else 512
+    o.d = 64 if n > 256 else 32
+    return o.c + o.d, o.c, o.d
+''')
+variant('p104', '''
+def f(o, n):
+    o.c = 1024 if n > 256 else 512
+    o.d = 32 if n > 256 else 64
+    return o.c + o.d, o.c, o.d
+''')
+variant('p105', '''
+def f(l, n):
+    g = list(map(lambda x: x + n, l))
+    l.append(n)
+    r = list(g)
+    h = (x * 2 for x in l)
+    l.append(1)
+    return r, sum(h), l
+''')
+variant('p105', '''
+def f(l, n):
+    g = map(lambda x: x + n, l)
+    l.append(n)
+    r = list(g)
+    h = [x * 2 for x in l]
+    l.append(1)
+    return r, sum(h), l
+''')
+variant('p105', '''
+def f(l, n):
+    g = map(lambda x: x + n, l)
+    r = list(g)
+    l.append(n)
+    h = (x * 2 for x in l)
+    l.append(1)
+    return r, sum(h), l
+''')
+variant('p106', '''
+def f(l, n):
+    l = list(map(lambda x: x ^ 1, l) if n % 2 else l)
+    return l[:2], l[2:], len(l)
+''')
+variant('p106', '''
+def f(l, n):
+    l = list(l if n % 2 else map(lambda x: x ^ 1, l))
+    return l[:2], l[2:], len(l)
+''')
+variant('p107', '''
+def f(l, n):
+    q, r = divmod(len(l), 3)
+    if len(l) == 0 or r > 0:
+        q += 1
+    out = []
+    for b in range(q - 1):
+        out.append(b + n)
+    t = 1 if n % 2 else 0
+    if n > 4:
+        u = 8 * n - 28
+    elif n == 4:
+        u = 4
+    elif n == 3:
+        u = 1
+    else:
+        u = 0
+    return out, q, t + 1, u // 3
+''')
+variant('p107', '''
+def f(l, n):
+    q, r = divmod(len(l), 3)
+    if len(l) == 0 or r > 0:
+        q += 1
+    out = []
+    for b in range(q - 1):
+        out.append(b + n)
+    t = 1 if n % 2 else 0
+    if n > 3:
+        u = 8 * n - 28
+    elif n == 4:
+        u = 4
+    elif n == 3:
+        u = 1
+    else:
+        u = 0
+    return out, q, t + 1, u // 3
+''')
+variant('p107', '''
+def f(l, n):
+    q, r = divmod(len(l), 3)
+    if len(l) == 0 or r > 0:
+        q += 1
+    out = []
+    for b in range(q - 1):
+        out.append(b + n)
+    t = n % 2 == 1
+    u = 4 if n == 4 else (1 if n == 3 else (8 * n - 28 if n > 4 else 0))
+    return out, q, t + 1, u // 3
+''')
+variant('p108', '''
+def f(a, b, **kargs):
+    x = kargs.get('x', a)
+    y = kargs.get('y', b)
+    if x != y + 1 and 'y' in kargs:
+        if 'x' in kargs:
+            a = x - y
+        if 'z' in kargs:
+            b = x + y
+    return a, b, x, y
+''')
+variant('p108', '''
+def f(a, b, **kargs):
+    x = kargs.get('x', a)
+    y = kargs.get('y', b)
+    if x != y + 1 and 'x' in kargs:
+        if 'y' in kargs:
+            a = x - y
+        if 'z' in kargs:
+            b = x + y
+    return a, b, x, y
+''')
+
+variant('p109', '''
+def f(l, n):
+    out = []
+    for x in list(map(lambda y: y + n, l)):
+        if len(l) < 6:
+            l.append(x)
+        out.append(x)
+    for x in l:
+        if len(l) < 9:
+            l.append(x + 1)
+    return out, l
+''')
+variant('p109', '''
+def f(l, n):
+    out = []
+    for x in [y + n for y in l]:
+        if len(l) < 6:
+            l.append(x)
+        out.append(x)
+    for x in l:
+        if len(l) < 9:
+            l.append(x + 1)
+    return out, l
+''')
+variant('p109', '''
+def f(l, n):
+    out = []
+    for x in map(lambda y: y + n, l):
+        if len(l) < 6:
+            l.append(x)
+        out.append(x)
+    for x in list(l):
+        if len(l) < 9:
+            l.append(x + 1)
+    return out, l
+''')
+variant('p109', '''
+def f(l, n):
+    out = []
+    for x in map(lambda y: y + n, l):
+        if len(l) < 6:
+            l.append(x)
+        out.append(x)
+    for i in range(len(l)):
+        x = l[i]
+        if len(l) < 9:
+            l.append(x + 1)
+    return out, l
+''')
+
 # ---- input generation by parameter name ----------------------------------------------------------------------------------------
 
 
@@ -1156,7 +1627,11 @@ def run(src, args):
     signal.setitimer(signal.ITIMER_REAL, 0.4)
     try:
         try:
-            r = f(*args)
+            kw = {}
+            if f.__code__.co_flags & 0x08:         # **kargs: a subset of the keys x, y, z chosen from the arguments
+                r_ = random.Random(repr(args))
+                kw = {k: r_.randrange(6) for k in ('x', 'y', 'z') if r_.random() < 0.5}
+            r = f(*args, **kw)
             if isinstance(r, types.GeneratorType):
                 r = list(itertools.islice(r, 2000))
             out = ('ret', snapshot(r))
@@ -1419,10 +1894,19 @@ def always_crashes(src, seed):
 def work(job):
     name, idx, seed = job
     src = CORPUS[name]
+    if type(idx) is str:                       # a hand-written variant
+        kind, new = 'hand-written variant ' + idx, VARIANTS[int(idx[1:])][1]
+        job, r, info = _work(job, src, new, kind, seed)
+        return job, ('hand: ' + r if r != 'UNSOUND' else r), info
     try:
         kind, new = mutate(src, idx, seed)
     except Exception as ex:
         return job, 'skip', None
+    return _work(job, src, new, kind, seed)
+
+
+def _work(job, src, new, kind, seed):
+    name = job[0]
     if ast.dump(ast.parse(new)) == ast.dump(ast.parse(src)):
         return job, 'same', kind
     try:
@@ -1468,11 +1952,12 @@ if __name__ == '__main__':
     random.Random(a.seed).shuffle(jobs)
     if a.max:
         jobs = jobs[:a.max]
+    jobs += [(nm, 'v%d' % k, a.seed) for k, (nm, _) in enumerate(VARIANTS) if not a.only or nm in a.only.split(',')]
     print('corpus %d functions, %d mutants' % (len(CORPUS), len(jobs)), flush=True)
     cnt = {}
     with cf.ProcessPoolExecutor(max_workers=a.jobs) as ex:
         for job, st, info in ex.map(work, jobs, chunksize=8):
             cnt[st] = cnt.get(st, 0) + 1
             if st in ('UNSOUND', 'error'):
-                print('%s %s#%d %s' % (st, job[0], job[1], info), flush=True)
+                print('%s %s#%s %s' % (st, job[0], job[1], info), flush=True)
     print(cnt)
